@@ -4,7 +4,7 @@
 What is changed or dropped is listed in DESIGN.md section 2.2; anything without a rule raises
 Abort (the check then exits 2 -- it never verifies less silently).
 """
-import re, sys, os
+import re, json, os, sys, os
 from cast import Ast, has_body, body_of, params_of
 
 
@@ -1827,7 +1827,77 @@ class Lower:
         targs = [self.qt(a) for a in self.inner(par) if a.get('kind') == 'TemplateArgument']
         return '%s<%s>' % (q, ', '.join(targs))
 
+    # ------------------------------------------------------------------ tolerance to renamed parameters / locals
+    def locals_of(self, d):
+        """(parameter names by position, [(local name, normalised type)] in declaration order; lambda bodies excluded)"""
+        params = [p.get('name', '') for p in params_of(d)]
+        out = []
+
+        def walk(n):
+            for c in n.get('inner', []):
+                if not isinstance(c, dict) or not c:
+                    continue
+                if c.get('kind') == 'LambdaExpr':
+                    continue
+                if c.get('kind') == 'VarDecl' and c.get('name') and not c.get('isImplicit') and not c['name'].startswith('__'):
+                    out.append((c['name'], re.sub(r'\(lambda at [^)]*\)', '(lambda)', norm_type(self.qt(c)))))
+                walk(c)
+        if has_body(d):
+            walk(body_of(d))
+        return params, out
+
+    def recover_renames(self, d, cname, spec):
+        """contracts name parameters and locals of the real function.  units/locals.json records, per function under contract, the
+        names as they were when the contracts were written; a parameter (by position) or a local (by declaration order and type) that
+        has merely been RENAMED since is mapped to its new name in every piece of specification text of the function"""
+        db = getattr(self.u, '_locals_db', None)
+        if db is None:
+            p = os.path.join(os.path.dirname(os.path.dirname(os.path.abspath(__file__))), 'units', 'locals.json')
+            db = json.load(open(p)).get(self.u.NAME, {}) if os.path.exists(p) else {}
+            self.u._locals_db = db
+        rec = db.get(cname)
+        if not rec:
+            return spec
+        params, locs = self.locals_of(d)
+        cur_names = set(params) | set(n for n, _ in locs)
+        old_names = set(rec['params']) | set(n for n, _ in rec['locals'])
+        m = {}
+        for i, old in enumerate(rec['params']):
+            if old and i < len(params) and params[i] != old and old not in cur_names and params[i] not in old_names:
+                m[old] = params[i]
+        if len(rec['locals']) == len(locs) and all(a[1] == b[1] for a, b in zip(rec['locals'], locs)):
+            for (old, _), (new, _) in zip(rec['locals'], locs):
+                if old != new and old not in cur_names and new not in old_names:
+                    m[old] = new
+        else:
+            for old, t in rec['locals']:
+                if old in cur_names:
+                    continue
+                cands = [n for n, tt in locs if tt == t and n not in old_names]
+                if len(cands) == 1 and cands[0] not in m.values():
+                    m[old] = cands[0]
+        if not m:
+            return spec
+        self.assumptions.add('%s: renamed since the contracts were written, mapped by position: %s' % (cname, ', '.join('%s -> %s' % kv for kv in sorted(m.items()))))
+        rx = re.compile(r'(?<![\w>.$])(' + '|'.join(re.escape(k) for k in sorted(m, key=len, reverse=True)) + r')\b')
+
+        def sub(x):
+            if isinstance(x, str):
+                return rx.sub(lambda mm: m[mm.group(1)], x)
+            if isinstance(x, (list, tuple)):
+                return type(x)(sub(y) for y in x)
+            if isinstance(x, dict):
+                return dict((sub(k) if isinstance(k, str) else k, sub(v)) for k, v in x.items())
+            return x
+        keep = dict((k, spec[k]) for k in ('q', 'sig', 'sig_exact', 'c', 'targs', 'class_targ', 'dead_ok') if k in spec)
+        new = sub(dict((k, v) for k, v in spec.items() if k not in keep))
+        if 'ghost' in new:          # callee names are C names, not locals: keep them
+            new['ghost'] = [(g0[0], g1[1], g1[2]) for g0, g1 in zip(spec['ghost'], new['ghost'])]
+        new.update(keep)
+        return new
+
     def function(self, d, cname, spec):
+        spec = self.recover_renames(d, cname, spec)
         self.cur_fn = cname
         self.cur_q = self.ast.qname(d)
         self.cur_spec = spec
